@@ -28,13 +28,16 @@ def T(name):
 
 # --------------------------------------------------------------------------------------------- scenarios
 OPTIONS = {
-    "class_label": ("absent", "empty", "present", "present-int"),  # present-int: integer class values including 0
+    # present-int: integer class values including 0; present-blank: one class is the empty string
+    "class_label": ("absent", "empty", "present", "present-int", "present-blank"),
     "comment": ("no", "yes"),
     "length_header": ("none", "equal_length+series_length", "series_length"),
     "univariate": ("yes", "no"),
 }
 ROW_LABELS = [2, 0, 1, 3, 4, 5]  # the written panel has a non-default row index: labels must not be used as positions
-COMMENT = " ".join("note%d" % i for i in range(40))
+# the comment is arbitrary text: long enough to be wrapped, and made of words the parser would read as tags if a
+# wrapped line started with them (every line of the comment block must therefore carry the comment marker)
+COMMENT = "note " + " ".join(["@data", "@problemName", "@classLabel true"] * 14)
 
 
 def scenarios():
@@ -53,6 +56,10 @@ def scenario_inputs(sc):
         kw["univariate"] = False  # "yes" relies on the writer's documented default (univariate=True)
     if sc["class_label"] == "present":
         kw["class_label"] = [T("c0"), T("c1")]
+        kw["class_value_list"] = list(labels)
+    elif sc["class_label"] == "present-blank":
+        labels = [T("c1"), "", T("c0")]
+        kw["class_label"] = [T("c0"), T("c1"), ""]
         kw["class_value_list"] = list(labels)
     elif sc["class_label"] == "present-int":
         labels = [1, 0, 0]
@@ -324,6 +331,8 @@ def rule_loader(ctx, repo):
             isinstance(n, ast.Call) and isinstance(n.func, ast.Name) and n.func.id in ("set", "frozenset")) for n in ast.walk(fn))
         for rev in ((True, False) if iterates_set else (True,)):
             _rule_loader(ctx, repo, rev, entry)
+        if "extract_path" in astq.param_names(fn):
+            _rule_loader(ctx, repo, True, entry, extract=True)
 
 
 class _SplitFiles(dict):
@@ -341,29 +350,44 @@ class _SplitFiles(dict):
         return default
 
 
-def _rule_loader(ctx, repo, set_reverse, entry="_load_dataset"):
+def _rule_loader(ctx, repo, set_reverse, entry="_load_dataset", extract=False):
+    """``extract``: the data set lives in a user-supplied extract_path; the bundled data directory holds *another* data
+    set of the same name, so reading from the wrong directory shows as wrong instances."""
     mod = repo.module(DS)
     fn = repo.func(DS, entry)
     loc = ctx.loc(mod, fn)
     name = "abstractset"
     params = astq.param_names(fn)
-    if "name" not in params:
-        consts = [v.value for v in astq.assigned_values(fn, "name") if isinstance(v, ast.Constant) and isinstance(v.value, str)]
-        name = consts[0] if len(consts) == 1 else name
+    # every identifier-like string constant of the loader may be the data set's name: all of them are "downloaded"
+    known = sorted({n.value for n in ast.walk(fn) if isinstance(n, ast.Constant) and isinstance(n.value, str)
+                    and n.value.isidentifier() and n is not (fn.body[0].value if isinstance(fn.body[0], ast.Expr) else None)})
+    XP = "/user/cache"
     if not {"split", "return_X_y"} <= set(params):
         ctx.undecided("R3", entry, "loader has no split / return_X_y parameters", loc)
         return
-    tr_text, tr_rows, tr_labs = abstract_ts("tr", 2)
-    te_text, te_rows, te_labs = abstract_ts("te", 3)
-    files = _SplitFiles(tr_text, te_text)
+    if extract:
+        entry_tag = entry + "[extract_path]"
+        tr_text, tr_rows, tr_labs = abstract_ts("utr", 2)
+        te_text, te_rows, te_labs = abstract_ts("ute", 3)
+        files = _SplitFiles(abstract_ts("tr", 3)[0], abstract_ts("te", 2)[0])  # what the bundled directory holds
+    else:
+        entry_tag = entry
+        tr_text, tr_rows, tr_labs = abstract_ts("tr", 2)
+        te_text, te_rows, te_labs = abstract_ts("te", 3)
+        files = _SplitFiles(tr_text, te_text)
     results = {}
     for split in (None, "train", "test"):
         for rxy in (True, False):
-            tag = "%s[split=%s,return_X_y=%s]" % (entry, split, rxy)
+            tag = "%s[split=%s,return_X_y=%s]" % (entry_tag, split, rxy)
             vfs = M.VFS(by_basename=files)
-            it = Interp(repo, M.make_externals(vfs, listing=[name]), M.to_float, M.str_hook, set_reverse=set_reverse)
+            if extract:
+                vfs.files["%s/%s/%s_TRAIN.ts" % (XP, name, name)] = tr_text
+                vfs.files["%s/%s/%s_TEST.ts" % (XP, name, name)] = te_text
+            it = Interp(repo, M.make_externals(vfs, listing=[name] + known), M.to_float, M.str_hook, set_reverse=set_reverse)
             try:
                 kw = {"split": split, "return_X_y": rxy}
+                if extract:
+                    kw["extract_path"] = XP
                 if "name" in params:
                     kw["name"] = name
                 results[(split, rxy)] = it.call_entry(mod, fn, [], kw)
@@ -390,7 +414,7 @@ def _rule_loader(ctx, repo, set_reverse, entry="_load_dataset"):
         r = results.get((split, True))
         if (split, True) not in results:
             continue
-        tag = "%s[split=%s]" % (entry, split)
+        tag = "%s[split=%s]" % (entry_tag, split)
         wX, wy = want[split]
         if not (isinstance(r, tuple) and len(r) == 2 and isinstance(r[0], M.FrameV) and hasattr(r[1], "data")):
             ctx.check(False if isinstance(r, M.FrameV) else None, "R3", tag + ":X_y", "",
@@ -413,7 +437,7 @@ def _rule_loader(ctx, repo, set_reverse, entry="_load_dataset"):
                       "the single-frame form is not the X of return_X_y=True plus its y as one column: %s" % _short(r2), loc)
     op = results.get((None, True, "opened"))
     if op is not None:
-        ctx.check(op == [name + "_TRAIN.ts", name + "_TEST.ts"], "R3", "%s[split=None]:files" % entry,
+        ctx.check([o.rsplit("_", 1)[-1] for o in op] == ["TRAIN.ts", "TEST.ts"], "R3", "%s[split=None]:files" % entry_tag,
                   "reads <name>_TRAIN.ts then <name>_TEST.ts", "files read: %s" % op, loc)
 
 
@@ -639,6 +663,6 @@ def run(ctx):
     rule_parsers_multivariate(ctx, repo)
     rule_stateless(ctx, repo)
     ctx.floor("R1", 13)
-    ctx.floor("R2", 48)
+    ctx.floor("R2", 60)
     ctx.floor("R3", 90)
     ctx.floor("R4", 14)
